@@ -11,20 +11,33 @@
 package storage
 
 //@ func (l *PartitionLog) segmentKey
+//@   inline
+//@   exact_strings
 //@   ensures [C22.shape.segmentKey] c22SafeTopic(l.topic) ==> result == c22ObjKey(pathPfx(l.namespace), l.topic, fmtd(l.partition), "segment-" + fmtd0(baseOffset, 20) + ".kfs")
 //@ func (l *PartitionLog) indexKey
+//@   inline
+//@   exact_strings
 //@   ensures [C22.shape.indexKey] c22SafeTopic(l.topic) ==> result == c22ObjKey(pathPfx(l.namespace), l.topic, fmtd(l.partition), "segment-" + fmtd0(baseOffset, 20) + ".index")
 //@ func (l *PartitionLog) segmentPrefix
+//@   inline
+//@   exact_strings
 //@   ensures [C22.shape.segmentPrefix] c22SafeTopic(l.topic) ==> result == c22SegPrefix(pathPfx(l.namespace), l.topic, fmtd(l.partition))
 //@ func (l *PartitionLog) cacheTopicKey
+//@   inline
+//@   exact_strings
 //@   ensures [C22.shape.cacheTopicKey] c22SafeTopic(l.topic) ==> result == c22CacheTopic(pathPfx(l.namespace), l.topic)
 //@ func segmentObjectKey
+//@   inline
+//@   exact_strings
 //@   ensures [C22.shape.segmentObjectKey] c22SafeTopic(topic) ==> result == c22ObjKey(pathPfx(namespace), topic, fmtd(partition), "segment-" + fmtd0(baseOffset, 20) + ".kfs")
 //@ func segmentIndexKey
+//@   inline
+//@   exact_strings
 //@   ensures [C22.shape.segmentIndexKey] c22SafeTopic(topic) ==> result == c22ObjKey(pathPfx(namespace), topic, fmtd(partition), "segment-" + fmtd0(baseOffset, 20) + ".index")
 
 // The one prefix scan of the broker's data path: restoring a partition lists exactly that partition's prefix
 // (for the C22 check exploration is cut after the listing; the rest of RestoreFromS3 belongs to C06).
 //@ func (l *PartitionLog) RestoreFromS3
+//@   exact_strings
 //@   at ListSegments#1 before assert [C22.restore_lists_own_prefix] c22SafeTopic(l.topic) ==> arg1 == c22SegPrefix(pathPfx(l.namespace), l.topic, fmtd(l.partition))
 //@   at ListSegments#1 after stop [C22]
